@@ -98,7 +98,8 @@ pub fn check_c03(sc: &H1Scenario, out: &H1Out) -> Vec<Violation> {
         // Had the follower started to arrive before the closing response was completely written?
         // (The known defect processes what is already pipelined behind the closing response; a
         // follower that only arrives once the closing response is on the wire is a different matter.)
-        let close_done = step_of_offset(co, r.end.max(r.start + 1) - 1).map(|x| x.1).unwrap_or(u64::MAX);
+        // (a closing response whose last byte never reached the wire was never "completely written")
+        let close_done = if r.complete { step_of_offset(co, r.end.max(r.start + 1) - 1).map(|x| x.1).unwrap_or(u64::MAX) } else { u64::MAX };
         // the server can only shut down once the closing response is written and the closing
         // request has been read to its end; was the follower read by then (same poll or earlier)?
         let own_end_read = pl.get(j).and_then(|n| layout.get(n.req_idx)).and_then(|l| read_step_of(co, l.2.saturating_sub(1))).unwrap_or(0);
